@@ -192,7 +192,8 @@ def work(task):
     # change how either parser reads the next program
     inc = '# Signa inter verba conjugo, symbolum infixus evoco!\n'
     sens = ['Q(x) :- A(x) <=> B(x);', 'T(y) :- y == 2*F(1);', 'U(x ---y) :- x == 1, y == 2;', 'T(x) :- A(x), B(x);']
-    for order in ([inc + sens[0]] + sens + [inc + sens[1]] + sens, sens + [inc + 'T(1);'] + sens, [inc + 'T(1);', inc + sens[2]] + sens[::-1]):
+    broken = inc + 'T(y) :- y == 2*F(1;'
+    for order in ([inc + sens[0]] + sens + [inc + sens[1]] + sens, sens + [inc + 'T(1);'] + sens, [inc + 'T(1);', inc + sens[2]] + sens[::-1], [broken] + sens + [broken, broken] + sens[::-1]):
       for t in order:
         stats['statements'] += 1
         outcomes.add(compare(t, stats, viol, kind='sequence'))
